@@ -253,18 +253,21 @@ Definition asm_step (d : htfc) (cap : N) (e : centry) (a : ast) : option (ast * 
       end
   end.
 
-(* bool DecodingTable::processChunk(ChunkScan* c) *)
-Definition process_chunk (d : htfc) (cap : N) (b : bst) (a : ast) : option (bst * ast * bool) :=
+(* processChunk + the bit-machine part of getSubstring *)
+Definition bstep (d : htfc) (b : bst) : option (centry * bst) :=
   match fill_chunk (S (S (N.to_nat (h_k d / 8)))) (h_text d) (h_k d) b with
   | None => None
-  | Some b1 =>
-      match chunk_lookup d b1 with
+  | Some b1 => chunk_lookup d b1
+  end.
+
+(* bool DecodingTable::processChunk(ChunkScan* c) *)
+Definition process_chunk (d : htfc) (cap : N) (b : bst) (a : ast) : option (bst * ast * bool) :=
+  match bstep d b with
+  | None => None
+  | Some (e, b2) =>
+      match asm_step d cap e a with
       | None => None
-      | Some (e, b2) =>
-          match asm_step d cap e a with
-          | None => None
-          | Some (a', fin) => Some (b2, a', fin)
-          end
+      | Some (a', fin) => Some (b2, a', fin)
       end
   end.
 
@@ -835,3 +838,72 @@ Definition htfc_check (S : list str) (d : htfc) : bool :=
   (h_buckets d =? (lenN S + b - 1) / b) && (h_k d =? 16) &&
   code_chk (h_cw d) && forallb (fun x => x <? 256) (h_text d) &&
   match htrace_from d b 0 [] st0_dummy S with Some _ => true | None => false end.
+
+(* ---------------------------------------------------------------------- *)
+(* second checker: the decodeString protocol is NOT run, only the chunk chain *)
+(* ---------------------------------------------------------------------- *)
+(* [htfc_check] above certifies an object by running the model's own decodeString over every bucket.  The
+   checker below runs only the bit machine (processChunk + table lookup) along every bucket and compares the
+   SYMBOLS the table hands out with the front-coded items VByte(lcp) ++ suffix ++ NUL computed from S;
+   HTFCProofs.htfc_check2_sound proves that the advanced/extracted protocol of StatCoder::decodeString then
+   reassembles exactly the strings of S (for in-bucket lcp < 128: one VByte byte, never 0). *)
+Fixpoint has0 (l : list N) : bool := match l with [] => false | x :: r => (x =? 0) || has0 r end.
+Fixpoint idx0 (l : list N) : N := match l with [] => 0 | x :: r => if x =? 0 then 0 else 1 + idx0 r end.
+
+(* read table entries from bit state [bs] until [need] symbols are there ([A] = symbols already handed out
+   in advance); every entry must be a regular one whose `endings` bit and strlen agree with its symbols *)
+Fixpoint item_walk (fuel : nat) (d : htfc) (bs : bst) (A : list N) (need : N) : option (bst * list N) :=
+  if need <=? lenN A then Some (bs, A)
+  else match fuel with
+       | O => None
+       | S f =>
+           match bstep d bs with
+           | Some (CReg pos syms ending, bs') =>
+               if negb (lenN syms =? 0) && Bool.eqb ending (has0 syms) &&
+                  (if ending then match buf_strlen (h_stream d) pos with
+                                  | Some sl => sl =? idx0 syms
+                                  | None => false
+                                  end
+                   else true)
+               then item_walk f d bs' (A ++ syms) need
+               else None
+           | _ => None
+           end
+       end.
+
+(* flat pass as [htrace_from]; the state carried along is (bit state, symbols handed out in advance) *)
+Fixpoint hchain_from (d : htfc) (b : N) (i : N) (prev : str) (bs : bst) (A : list N) (ss : list str) : bool :=
+  match ss with
+  | [] => true
+  | s :: r =>
+      (lenN s <? h_maxlength d) && forallb (fun c => negb (c =? 0)) s &&
+      if i mod b =? 0 then
+        let k := i / b + 1 in
+        match rdN (h_bl d) k, pack_string (h_cw d) (s ++ [0]), decode_header d k with
+        | Some off, Some (enc, _), Some st0 =>
+            match reset_scan d k st0 with
+            | Some st1 =>
+                (off <=? lenN (h_text d)) && hprefix_eqb enc (skipN off (h_text d)) && ast_is (snd st0) s &&
+                hchain_from d b (i + 1) s (fst st1) [] r
+            | None => false
+            end
+        | _, _, _ => false
+        end
+      else
+        let l := lcp prev s in
+        let item := (l + 128) :: skipN l s ++ [0] in
+        (l <? 128) && (l <? lenN s) &&
+        match item_walk (S (length item)) d bs A (lenN item) with
+        | Some (bs', Afull) =>
+            hprefix_eqb item Afull && (lenN prev + 1 + lenN Afull <? str_cap d) &&
+            hchain_from d b (i + 1) s bs' (skipN (lenN item) Afull) r
+        | None => false
+        end
+  end.
+
+Definition htfc_check2 (S : list str) (d : htfc) : bool :=
+  let b := h_bsize d in
+  (2 <=? b) && (b <? 2 ^ 32) && (h_elements d =? lenN S) && (lenN S <? 2 ^ 32) &&
+  (h_buckets d =? (lenN S + b - 1) / b) && (h_k d =? 16) && (h_maxlength d <? 2 ^ 29) &&
+  code_chk (h_cw d) && forallb (fun x => x <? 256) (h_text d) &&
+  hchain_from d b 0 [] (fst st0_dummy) [] S.
